@@ -5,7 +5,7 @@ import ast
 
 from ..model import AnalysisError, Program
 from ..report import Run
-from ..skel import (BUILDER_CLASSES, cond_mentions, count_marker, field_class, recv_path, render, root_attr,
+from ..skel import (BUILDER_CLASSES, cond_mentions, count_marker, field_class, recv_path, render, root_attr, kind_states,
                     term_classes)
 from ..symex import Alt, Const, CtxV, Hole, Inh, Lit, SlotP, Str, Sym, show, walk_parts
 
@@ -129,8 +129,22 @@ def check(program: Program, run: Run) -> None:
         is_stmt = c.is_subclass_of(sel)
         kind, counts, on = discipline(program, c)
         if is_stmt:
-            # statements used as FROM/JOIN items: the tail wrap is C10/R2's obligation; recorded as observation only
+            # statements used as FROM/JOIN items: the tail wrap is C10/R2's obligation; the general discipline is an observation
             run.info(f"C12/info:statement-alias:{c.qualname}", f"{c.qualname} (statement) alias discipline: {kind} {counts}")
+            # ... but a SELECT must write its alias exactly when the position asks for it (with_alias), whatever the
+            # other embedding flags say: an aliased query used as an IN / comparison / set-operation operand is
+            # rendered with subquery=True and with_alias=False
+            if c.qualname in BUILDER_CLASSES:
+                sel_attrs = {**kind_states(program)["SELECT"], "alias": Const(MARK)}
+                for flag in (True, False):
+                    offv, _ = render(program, c, attrs=sel_attrs, ctx=CtxV.incoming().with_(with_alias=Const(False), subquery=Const(flag)))
+                    lo_, hi_ = count_marker(peel(offv), MARK)
+                    run.ob("C12/R1 a SELECT statement writes its alias only when with_alias is on", f"{c.qualname}:subquery={flag}", hi_ == 0, detail=f"alias occurrences {lo_}..{hi_}",
+                           where=f.loc())
+                    if hi_ > 0:
+                        run.finding(f"C12/statement-alias-ungated:{c.qualname}", f"{c.qualname} (SELECT) writes its alias although with_alias is off (subquery={flag}): an aliased query used as an operand "
+                                    "(IN, comparison, set-operation member) prints `(SELECT ...) alias` in the middle of an expression", where=f.loc(), rule="R1")
+                        break
             continue
         if c.name in EXEMPT_CLASSES:
             run.info(f"C12/info:exempt:{c.qualname}", f"{c.qualname} exempt from R1: {EXEMPT_CLASSES[c.name]} (discipline: {kind})")
